@@ -594,6 +594,13 @@ fn run_op<P: Payload>(cx: &mut Ctx<P>, i: usize, op: Op) {
     if op.k == K::Skip {
         return;
     }
+    // raw integer payloads carry their identity in 6 bits: stop creating values before it wraps
+    let ids_left = |need: usize| -> bool { P::DROPPABLE || P::ZST || payload::ledger().pays.len() + need <= 60 };
+    if (op.k.is_send() && !ids_left(1)) || (op.k == K::Drain && !ids_left(3)) {
+        let gi = begin(t, i, &op, K::Skip, 255, false, false);
+        end(gi, Res::Skip);
+        return;
+    }
     let slot = match cx.pick(want, op.h) {
         Some(s) => s,
         None => {
@@ -1045,6 +1052,9 @@ fn prober_body<P: Payload>(t: usize, ops: Vec<Op>, tabs: Arc<Tables<P>>) {
         } else {
             None
         };
+        if op.k.is_send() && !(P::DROPPABLE || P::ZST || payload::ledger().pays.len() < 60) {
+            continue;
+        }
         let Some(h) = borrow(want, op.h) else { continue };
         let gi = begin(t, i, &op, op.k, 254, h.is_async(), false);
         let r = catch_unwind(AssertUnwindSafe(|| {
